@@ -9,7 +9,7 @@
 (* specification says for the terminal's final state; after the end of the session no preview process may be left.     *)
 (*                                                                                                                    *)
 (* Events (field ev):                                                                                                 *)
-(*   begin   sid texts tmpls kinds talls H W wrap tag   new session (state reset); item texts; templates tag -> field  *)
+(*   begin   sid texts tmpls kinds talls H W wrap follow tag   new session (state reset); item texts; templates tag -> field  *)
 (*                                        codes; what the command does by item index mod Len(kinds) (kind "mute"       *)
 (*                                        prints nothing) and how many lines it prints at once by item index mod       *)
 (*                                        Len(talls); rows / columns of the preview window; wrap mode                  *)
@@ -28,6 +28,12 @@
 (*                                        there); head = first line split at "|" (last field: the line number)         *)
 (*   scroll  act                          preview-up / -down / -page-up / -page-down / -half-page-* / -top / -bottom   *)
 (*   tp                                   toggle-preview executed          tw    toggle-preview-wrap executed          *)
+(*   cpw     hidden H W                   change-preview-window executed: (hidden) = the window goes away and - unlike     *)
+(*                                        toggle-preview - t.previewer.lines are KEPT; any other window spec (only sent    *)
+(*                                        while the window is hidden that way) = the window is back, H rows x W columns    *)
+(*   idle    ms                           the driver saw no previewer event (but repeated displays) for ms >= 1000 ms and   *)
+(*                                        POSTed nothing meanwhile (ASSUMPTION: a watcher goroutine started before that      *)
+(*                                        has reached its select by then)                                                    *)
 (*   quiet   cur q sel visible tag rows nlo procs overlaps log   driver observed quiescence (GET /, /proc, LOG, the     *)
 (*                                        H rows of the preview window cut from the captured screen; nlo = number of   *)
 (*                                        lines of the last result that is certainly on the screen)                    *)
@@ -59,6 +65,7 @@ VARIABLES l, sid, gens, tmpls, kinds, talls, H, W,
           lastDisp,     \* last display: [v, nlines] or None
           idents,       \* idents[v] = identity line of the output of version v ("" until a line of it was seen)
           vis, wrap,    \* the preview window is there; its wrap mode
+          follow, fol,  \* --preview-window follow; t.previewer.following: "disabled" | "paused" | "enabled"
           pver, plv, pn, poff,  \* t.previewer: version; the version whose lines it holds (0: none) and how many; scroll offset
           pd,           \* t.previewed: [ver, n, off, filled] + cv: the version whose lines the rows below the first were painted from
           scr,          \* the H rows of the preview window (without the spinner / scroll indicator drawn over the first one)
@@ -66,25 +73,29 @@ VARIABLES l, sid, gens, tmpls, kinds, talls, H, W,
           pvSeq,        \* sequence number of the last event logged by the previewer goroutine itself (pick, cstart, cexit)
           quitSig,      \* outcome of the kill try-send of the exit path as far as logged: none | sent | dropped
           dev, phase    \* phase: run | exited
-vars == <<l, sid, gens, tmpls, kinds, talls, H, W, issued, expectSig, reqs, cur, nsent, nkill, lastDisp, idents, vis, wrap, pver, plv, pn, poff,
+vars == <<l, sid, gens, tmpls, kinds, talls, H, W, issued, expectSig, reqs, cur, nsent, nkill, lastDisp, idents, vis, wrap, follow, fol, pver, plv, pn, poff,
           pd, scr, started, pvSeq, quitSig, dev, phase>>
-sessVars == <<sid, gens, tmpls, kinds, talls, H, W>>
-winVars == <<idents, vis, wrap, pver, plv, pn, poff, pd, scr>>
+geomVars == <<H, W>>
+sessVars == <<sid, gens, tmpls, kinds, talls, geomVars, follow>>
+winVars == <<idents, vis, wrap, fol, pver, plv, pn, poff, pd, scr>>
 
 NoPd == [ver |-> 0, n |-> 0, off |-> 0, filled |-> FALSE, cv |-> 0]
 Init == /\ l = 1 /\ sid = -1 /\ gens = <<>> /\ tmpls = <<>> /\ kinds = <<>> /\ talls = <<>> /\ H = 0 /\ W = 0
         /\ issued = <<>> /\ expectSig = FALSE /\ reqs = <<>> /\ cur = None
-        /\ nsent = 0 /\ nkill = 0 /\ lastDisp = None /\ idents = <<>> /\ vis = TRUE /\ wrap = FALSE /\ pver = 0 /\ plv = 0 /\ pn = 0 /\ poff = 0
+        /\ nsent = 0 /\ nkill = 0 /\ lastDisp = None /\ idents = <<>> /\ vis = TRUE /\ wrap = FALSE /\ follow = FALSE /\ fol = "disabled" /\ pver = 0 /\ plv = 0 /\ pn = 0 /\ poff = 0
         /\ pd = NoPd /\ scr = <<>>
         /\ started = <<>> /\ pvSeq = 0 /\ quitSig = "none" /\ dev = {} /\ phase = "run"
 
 Ev == TraceLog[l]
+(* resumableState: Force(flag); Set(flag) has no effect while following is disabled *)
+Forced(flag) == IF flag THEN "enabled" ELSE "disabled"
+FolSet(f, flag) == IF f = "disabled" THEN f ELSE IF flag THEN "enabled" ELSE "paused"
 Is(name) == l <= Len(TraceLog) /\ Ev.ev = name /\ l' = l + 1
 
 TBegin == /\ Is("begin")
           /\ sid' = Ev.sid /\ gens' = <<Ev.texts>> /\ tmpls' = Ev.tmpls /\ kinds' = Ev.kinds /\ talls' = Ev.talls /\ H' = Ev.H /\ W' = Ev.W
           /\ issued' = <<>> /\ expectSig' = FALSE /\ reqs' = <<>> /\ cur' = None /\ nsent' = 0 /\ nkill' = 0 /\ lastDisp' = None
-          /\ idents' = <<>> /\ vis' = TRUE /\ wrap' = Ev.wrap /\ pver' = 0 /\ plv' = 0 /\ pn' = 0 /\ poff' = 0
+          /\ idents' = <<>> /\ vis' = TRUE /\ wrap' = Ev.wrap /\ follow' = Ev.follow /\ fol' = Forced(Ev.follow) /\ pver' = 0 /\ plv' = 0 /\ pn' = 0 /\ poff' = 0
           /\ pd' = NoPd /\ scr' = [r \in 1..Ev.H |-> ""]
           /\ started' = <<>> /\ pvSeq' = 0 /\ quitSig' = "none" /\ dev' = {} /\ phase' = "run"
 
@@ -192,8 +203,19 @@ TSig == /\ Is("sig") /\ phase = "run"
            ELSE /\ UNCHANGED nsent
                 /\ \/ UNCHANGED dev
                    \/ /\ InFlight /\ (Ev.immediately \/ cur.kills = 0)     \* a command is being started / runs unsignalled
+                      /\ ~(cur.watching /\ cur.kills = 0)                    \* ... and its watcher may still be on its way to the select
                       /\ dev' = dev \cup {IF Ev.immediately THEN "LostKillAtExit" ELSE "LostCancel"}
         /\ UNCHANGED <<sessVars, issued, reqs, cur, nkill, lastDisp, winVars, started, pvSeq, phase>>
+
+(* Long after the start of a command (TIdle) its watcher sits in its select - and stays there until it has received  *)
+(* a signal or the PROCESS is gone (cmd.Wait has returned), whether or not the command's output has ended: a command  *)
+(* that closed its stdout / stderr and keeps running (kind `closed`) is as cancellable as any other.  A try-send       *)
+(* dropped in that state is therefore no LostCancel / LostKillAtExit (both are about the short windows around the     *)
+(* start and the previewCancelWait delay): the harmless reading (the process just ended by itself, its reaping is    *)
+(* not logged yet) remains, and the quiescence condition decides.                                                      *)
+TIdle == /\ Is("idle") /\ phase = "run" /\ Ev.ms >= 1000
+         /\ cur' = IF cur # None /\ cur.started THEN [cur EXCEPT !.watching = TRUE] ELSE cur
+         /\ UNCHANGED <<sessVars, issued, expectSig, reqs, nsent, nkill, lastDisp, winVars, started, pvSeq, quitSig, dev, phase>>
 
 (* the previewer is sequential: it takes the next request only after the previous command was reaped; it takes one  *)
 (* of the announced requests, never one older than what it took before; versions count up by one.  Taking a request *)
@@ -209,10 +231,10 @@ TPick == /\ Is("pick") /\ phase = "run" /\ Free
               /\ \/ UNCHANGED dev
                  \/ i < Len(issued) /\ dev' = dev \cup {"LostCancel"}
          /\ cur' = IF Ev.item = -1 THEN None          \* no current line and nothing forces an update: blank preview, no command
-                   ELSE [v |-> Ev.version, pid |-> 0, started |-> FALSE, exited |-> FALSE, kills |-> 0, kimm |-> FALSE, ctx |-> FALSE]
+                   ELSE [v |-> Ev.version, pid |-> 0, started |-> FALSE, exited |-> FALSE, kills |-> 0, kimm |-> FALSE, ctx |-> FALSE, watching |-> FALSE]
          /\ pvSeq' = Ev.seq
          /\ idents' = Append(idents, "")
-         /\ UNCHANGED <<sessVars, expectSig, nsent, nkill, lastDisp, vis, wrap, pver, plv, pn, poff, pd, scr, started, quitSig, phase>>
+         /\ UNCHANGED <<sessVars, expectSig, nsent, nkill, lastDisp, vis, wrap, fol, pver, plv, pn, poff, pd, scr, started, quitSig, phase>>
 
 TStart == /\ Is("cstart") /\ phase = "run" /\ InFlight /\ ~cur.started /\ cur.v = Ev.version
           /\ cur' = [cur EXCEPT !.started = TRUE, !.pid = Ev.pid]
@@ -251,12 +273,21 @@ TDisp == /\ Is("disp") /\ phase = "run"
                 first == lastDisp = None \/ lastDisp.v # v
             IN /\ (Ev.nlines > 0 /\ idents[v] # "" => idents[v] = JoinBar(Front(Ev.head)))          \* one command, one identity
                /\ idents' = ids /\ pver' = v /\ plv' = (IF Ev.nlines > 0 THEN v ELSE 0) /\ pn' = Ev.nlines
-               /\ \E off \in {IF first THEN 0 ELSE poff, poff} :
-                    /\ poff' = off
-                    /\ IF vis THEN /\ scr' = PaintScr(ids, v, plv', Ev.nlines, off) /\ pd' = PaintPd(ids, v, plv', Ev.nlines, off)
-                                   /\ dev' = dev \cup PaintDev(v, plv', Ev.nlines, off) \cup (IF first /\ off # 0 THEN {"LostOffsetReset"} ELSE {})
-                              ELSE /\ UNCHANGED <<scr, pd>>
-                                   /\ dev' = dev \cup (IF first /\ off # 0 THEN {"LostOffsetReset"} ELSE {})
+               (* --preview-window follow (man fzf: "automatically scroll to the bottom").  CODE-DERIVED: a result of    *)
+               (* another version than t.previewer.version forces `following` back to the option and, when enabled,    *)
+               (* restarts the offset from 0; then, with a window and following enabled, EVERY result moves the offset *)
+               (* to Max(offset, lines - rows): the last H lines; all of an output shorter than the window from 0.     *)
+               /\ \E newver \in {pver # v} \cup (IF DelayedSetsVersion THEN {first} ELSE {}) :
+                    LET f == IF newver THEN Forced(follow) ELSE fol
+                        base == IF newver /\ f = "enabled" THEN 0 ELSE poff
+                    IN /\ fol' = f
+                       /\ \E off \in (IF vis /\ f = "enabled" THEN {Max(base, Ev.nlines - H)} ELSE {IF first THEN 0 ELSE base, base}) :
+                            /\ poff' = off
+                            /\ LET lost == IF first /\ off # 0 /\ ~(vis /\ f = "enabled") THEN {"LostOffsetReset"} ELSE {} IN
+                               IF vis THEN /\ scr' = PaintScr(ids, v, plv', Ev.nlines, off) /\ pd' = PaintPd(ids, v, plv', Ev.nlines, off)
+                                           /\ dev' = dev \cup PaintDev(v, plv', Ev.nlines, off) \cup lost
+                                      ELSE /\ UNCHANGED <<scr, pd>>
+                                           /\ dev' = dev \cup lost
          /\ UNCHANGED <<sessVars, issued, expectSig, reqs, cur, nsent, nkill, vis, wrap, started, pvSeq, quitSig, phase>>
 
 (* reqPreviewDelayed is not logged: once a command has been started, t.previewer.version may have become its version *)
@@ -279,8 +310,9 @@ SurelyScrollable == (pn > H \/ poff > 0) /\ (cur = None \/ ~cur.started \/ (last
 TScroll == /\ Is("scroll") /\ phase = "run"
            /\ LET new == Constrain(Target(Ev.act), 0, pn - 1) IN
               \/ /\ (~vis \/ ~SurelyScrollable \/ new = poff)                  \* no window / not scrollable / already there
-                 /\ UNCHANGED <<pver, poff, pd, scr, dev>>
+                 /\ UNCHANGED <<pver, poff, pd, scr, dev, fol>>
               \/ /\ vis /\ new # poff /\ poff' = new
+                 /\ fol' = FolSet(fol, new >= pn - H)          \* scrolled away from the end: following pauses; back to it: resumes
                  /\ \E pv \in VersionsNow : Repaint(pv)
            /\ UNCHANGED <<sessVars, issued, expectSig, reqs, cur, nsent, nkill, lastDisp, idents, vis, wrap, plv, pn, started, pvSeq, quitSig, phase>>
 (* toggle-preview-wrap: t.previewed.version = 0, reqPreviewRefresh (the guard in printPreview uses pd, so it is     *)
@@ -294,19 +326,33 @@ TWrap == /\ Is("tw") /\ phase = "run"
                       /\ pd' = [ver |-> pv, n |-> pn, off |-> poff, filled |-> Fills(IdOf(plv), pn, poff, H, W, ~wrap), cv |-> plv]
                  /\ UNCHANGED dev
             ELSE UNCHANGED <<wrap, pver, poff, pd, scr, dev>>
-         /\ UNCHANGED <<sessVars, issued, expectSig, reqs, cur, nsent, nkill, lastDisp, idents, vis, plv, pn, started, pvSeq, quitSig, phase>>
+         /\ UNCHANGED <<sessVars, issued, expectSig, reqs, cur, nsent, nkill, lastDisp, idents, vis, fol, plv, pn, started, pvSeq, quitSig, phase>>
 (* toggle-preview: the windows are laid out again (empty window, t.previewed.version = 0); hiding drops the lines *)
 TToggle == /\ Is("tp") /\ phase = "run"
            /\ vis' = ~vis /\ scr' = [r \in 1..H |-> ""] /\ pd' = [pd EXCEPT !.ver = 0]
            /\ IF vis THEN plv' = 0 /\ pn' = 0 ELSE UNCHANGED <<plv, pn>>
-           /\ UNCHANGED <<sessVars, issued, expectSig, reqs, cur, nsent, nkill, lastDisp, idents, wrap, pver, poff, started, pvSeq, quitSig, dev, phase>>
+           /\ UNCHANGED <<sessVars, issued, expectSig, reqs, cur, nsent, nkill, lastDisp, idents, wrap, fol, pver, poff, started, pvSeq, quitSig, dev, phase>>
+
+(* change-preview-window: the SECOND way of hiding.  (hidden): the window goes away, the running command is cancelled *)
+(* (the try-send is logged as `sig`), t.previewer.lines are KEPT; any other spec while hidden that way: the window is  *)
+(* back (laid out again: H x W as given, empty, t.previewed.version = 0) and - THE RULE - the preview is restarted    *)
+(* for the line under the cursor NOW: the action announces a request (`enq` follows), whatever lines are still held;   *)
+(* the quiescence condition then demands the command for the present state.  CODE-DERIVED: every change-preview-window *)
+(* forces `following` back to the option.                                                                              *)
+TCpw == /\ Is("cpw") /\ phase = "run"
+        /\ IF Ev.hidden
+           THEN /\ vis /\ vis' = FALSE /\ UNCHANGED geomVars /\ scr' = [r \in 1..H |-> ""]
+           ELSE /\ ~vis /\ vis' = TRUE /\ H' = Ev.H /\ W' = Ev.W /\ scr' = [r \in 1..Ev.H |-> ""]
+        /\ pd' = [pd EXCEPT !.ver = 0] /\ fol' = Forced(follow)
+        /\ UNCHANGED <<sid, gens, tmpls, kinds, talls, follow, issued, expectSig, reqs, cur, nsent, nkill, lastDisp, idents, wrap, pver, plv, pn, poff, started,
+                       pvSeq, quitSig, dev, phase>>
 
 (* Terminal.UpdateList with a revision that is not compatible with the one on display: the items are replaced.  What *)
 (* follows from it for the preview (t.version++, reqList, refreshPreview) shows as the `enq` the render loop logs -     *)
 (* or does not log: the quiescence condition decides                                                                   *)
 TReload == /\ Is("reload") /\ phase = "run"
            /\ gens' = Append(gens, Ev.texts)
-           /\ UNCHANGED <<sid, tmpls, kinds, talls, H, W, issued, expectSig, reqs, cur, nsent, nkill, lastDisp, winVars, started, pvSeq, quitSig, dev, phase>>
+           /\ UNCHANGED <<sid, tmpls, kinds, talls, geomVars, follow, issued, expectSig, reqs, cur, nsent, nkill, lastDisp, winVars, started, pvSeq, quitSig, dev, phase>>
 
 -------------------------------------------------------------------------------
 (* Quiescence.  e.procs = process groups of preview commands alive in the process table; e.log = the records the    *)
@@ -374,7 +420,9 @@ Served(e) ==
                   /\ e.log # <<>> /\ e.log[Len(e.log)].pid = cur.pid             \* what the command itself logged
                   /\ e.log[Len(e.log)].vals = Expected(e.tag, FinalState(e)))
     /\ pver = Len(reqs) /\ pn = lastDisp.nlines /\ (pn > 0 => plv = Len(reqs))
-CaughtUp(e) == Served(e) /\ ShowsOutput(IdOf(plv), pn)
+(* follow (documented: the window scrolls to the bottom of the output): while following is on, the end of the output is in view *)
+Follows == fol = "enabled" => poff >= pn - H
+CaughtUp(e) == Served(e) /\ ShowsOutput(IdOf(plv), pn) /\ Follows
 (* exactly what the deviation StaleRows of FzfPreview leads to: everything is served, the first row is right, rows   *)
 (* below it still hold what an earlier paint left there                                                              *)
 StaleRowsShown(e) == "StaleRows" \in dev /\ Served(e) /\ ~ShowsOutput(IdOf(plv), pn)
@@ -382,14 +430,19 @@ StaleRowsShown(e) == "StaleRows" \in dev /\ Served(e) /\ ~ShowsOutput(IdOf(plv),
 (* exactly what the deviation StaleAfterShow of FzfPreview leads to: the request taken last was announced by a       *)
 (* toggle-preview / show-preview action, it was served flawlessly - but it is not the one for the final state and   *)
 (* the render loop announced nothing after it                                                                        *)
-StaleAfterShow(e) ==
+StaleAfterShowBy(e, acts) ==
     /\ ~expectSig /\ nkill <= nsent
-    /\ reqs # <<>> /\ LastReq.during \in {"toggle-preview", "show-preview"} /\ LastReq.tag = e.tag /\ ~Right(LastReq, e)
+    /\ reqs # <<>> /\ LastReq.during \in acts /\ LastReq.tag = e.tag /\ ~Right(LastReq, e)
     /\ \A k \in 1..Len(issued) : SameLine(issued[k], LastReq)
     /\ cur # None /\ cur.v = Len(reqs) /\ cur.started /\ cur.kills = 0
     /\ (cur.exited => e.procs = <<>>)
     /\ lastDisp # None /\ lastDisp.v = Len(reqs) /\ lastDisp.nlines > 0 /\ plv = Len(reqs) /\ ShowsOutput(IdOf(plv), pn)
     /\ e.log # <<>> /\ e.log[Len(e.log)].pid = cur.pid /\ JoinBar(e.log[Len(e.log)].vals) = IdOf(plv)
+StaleAfterShow(e) == StaleAfterShowBy(e, {"toggle-preview", "show-preview"})
+(* the same through change-preview-window(SPEC) from hidden: it announces from the action and does not bump t.version  *)
+(* (deviation StaleAfterShowKeep of FzfPreview, counterexample MC_Preview_dev_showkeep.cfg; reproduced on the real binary  *)
+(* with change-preview-window(hidden), then up+change-preview-window(right)+down in one chain)                           *)
+StaleAfterShowKeep(e) == StaleAfterShowBy(e, {"change-preview-window"})
 (* exactly what a lost cancel leads to, and nothing else: the command taken last is still in flight and was never   *)
 (* signalled, while the right request - the one announced last - waits in the box                                    *)
 StuckByLostCancel(e) ==
@@ -403,6 +456,7 @@ TQuiet == /\ Is("quiet") /\ phase = "run"
           /\ (vis => ScreenMatches(Ev))
           /\ \/ (~vis \/ CaughtUp(Ev) \/ StuckByLostCancel(Ev) \/ StaleRowsShown(Ev)) /\ UNCHANGED dev
              \/ vis /\ StaleAfterShow(Ev) /\ dev' = dev \cup {"StaleAfterShow"}
+             \/ vis /\ StaleAfterShowKeep(Ev) /\ dev' = dev \cup {"StaleAfterShowKeep"}
           /\ UNCHANGED <<sessVars, issued, expectSig, reqs, cur, nsent, nkill, lastDisp, winVars, started, pvSeq, quitSig, phase>>
 
 (* End of the session: none survives.  A survivor is explained only by a kill that was dropped (LostKillAtExit), or  *)
@@ -422,7 +476,7 @@ TExit == /\ Is("exit") /\ phase = "run"
          /\ phase' = "exited"
          /\ UNCHANGED <<sessVars, issued, expectSig, reqs, cur, nsent, nkill, lastDisp, winVars, started, pvSeq, quitSig>>
 
-Next == TBegin \/ TReload \/ TEnq \/ TSig \/ TPick \/ TStart \/ TKill \/ TCtx \/ TCExit \/ TDisp \/ TScroll \/ TWrap \/ TToggle \/ TQuiet \/ TExit
+Next == TBegin \/ TReload \/ TIdle \/ TCpw \/ TEnq \/ TSig \/ TPick \/ TStart \/ TKill \/ TCtx \/ TCExit \/ TDisp \/ TScroll \/ TWrap \/ TToggle \/ TQuiet \/ TExit
 Spec == Init /\ [][Next]_vars
 
 (* reported per session when its end is reached: with or without the help of a deviation action *)
